@@ -73,6 +73,8 @@ pub fn build(t: &mut Tape, fuel: i32, opts: Opts, policy: Option<CommentPolicy>,
         }
         _ => {}
     }
+    // the program is built; comments and layout get an unbounded supply of choices
+    t.stretch();
     let policy = policy.unwrap_or_else(|| *t.pick(&[CommentPolicy::None, CommentPolicy::LineEdges, CommentPolicy::Anywhere, CommentPolicy::LineEdges]));
     let density = 6 + t.below(30);
     let p = layout::insert_comments(&p0, t, policy, density);
